@@ -359,6 +359,75 @@ def lookup_probe(rng, tier):
     return out
 
 
+def reversed_dicts(j):
+    """The same value with every dict / object filled in the opposite insertion order."""
+    t = j["t"]
+    if t in ("list", "tuple"):
+        return {"t": t, "v": [reversed_dicts(x) for x in j["v"]]}
+    if t in ("dict", "obj"):
+        out = dict(j)
+        out["v"] = [[k, reversed_dicts(v)] for k, v in reversed(j["v"])]
+        return out
+    return j
+
+
+def deep_probe():
+    """Round 7: captured arguments nested DEEPER than any fixed bound an encoder might walk to (33 .. 60 container levels;
+    config / AST / JSON-like trees): a chain of lists / dicts / tuples / objects with, at the bottom, a dict or an object of
+    several entries (its structurally equal variant is filled in the opposite insertion order at every level), and the twin
+    bottoms (dict / Pt / Qt with equal entries) that must NOT share a key.  Deterministic: always runs, every tier and seed."""
+    def obj(cls, items):
+        return {"t": "obj", "cls": "lib.pyvals." + cls, "v": [[k, v] for k, v in items]}
+    entries = [("zeta", pv.i(1)), ("alpha", pv.s("é")), ("mid", pv.lst([pv.i(2), pv.none()]))]
+    bottoms = [pv.dct(entries), obj("Pt", entries), obj("Qt", entries), pv.lst([pv.dct(entries[:2]), obj("Pt", entries[1:])])]
+    wraps = ["list", "dict", "tuple", "obj", "mixed"]
+    out = []
+    k = 0
+    for depth in (33, 36, 40, 60):
+        for w in wraps:
+            for bottom in bottoms:
+                v = bottom
+                for lvl in range(depth):
+                    kind = w if w != "mixed" else ["list", "dict", "tuple", "obj"][(lvl + k) % 4]
+                    if kind == "list":
+                        v = pv.lst([v])
+                    elif kind == "tuple":
+                        v = pv.tup([pv.i(lvl), v])
+                    elif kind == "dict":
+                        v = pv.dct([("n", v), ("lvl", pv.i(lvl))])
+                    else:
+                        v = obj("Pt", [("child", v), ("lvl", pv.i(lvl))])
+                as_kw = k % 3 == 2
+                static = k % 2 == 0
+                args = ([] if static else [pv.s("SELF")]) + ([] if as_kw else [pv.i(k % 5), v])
+                kwargs = [["tree", v]] if as_kw else []
+                c = dict(alias="deep", cap=None if k % 4 else [[None, "tree"], [1 if static else 2, "t"]], static=static, args=args,
+                         kwargs=kwargs, via_decorator=(k % 4 == 1), body=None, probe="deep-nesting", depth=depth)
+                c["variants"] = [dict(args=[reversed_dicts(x) for x in args], kwargs=[[n, reversed_dicts(x)] for n, x in kwargs])]
+                out.append(c)
+                k += 1
+    return out
+
+
+NON_ASCII = ["מוסך", "dépôt-é", "停车场", "Ünïcode ß", "\u20ac 5", "emoji \U0001f68c"]
+
+
+def after_save_probe():
+    """Round 7: the key of a call is the same before and after THIS process recorded and saved an operation on a cassette
+    of every kind (memory, fake-bucket S3, file) - the key depends on alias and captured values only, not on what the
+    process did earlier.  Captured strings / dict keys / kwargs with non-ASCII text next to ASCII ones.  Deterministic."""
+    out = []
+    for k, t in enumerate(NON_ASCII + ["plain ascii"]):
+        vals = [pv.s(t), pv.dct([(t, pv.i(1)), ("name", pv.s(t + "/17"))]), pv.lst([pv.s(t), pv.tup([pv.s(t)])]),
+                {"t": "obj", "cls": "lib.pyvals.Pt", "v": [["name", pv.s(t)]]}]
+        for j, v in enumerate(vals):
+            as_kw = (k + j) % 2 == 1
+            out.append(dict(alias="depot", cap=None, static=True, args=[] if as_kw else [v, pv.i(j)],
+                            kwargs=[["name", v]] if as_kw else [], variants=[], via_decorator=False, probe="key-after-save",
+                            after_save=["memory", "s3", "file"]))
+    return out
+
+
 def fmt_alias(case, args):
     """Harness-side mirror of the alias resolver of the lookup probe: {p} = the text of one positional argument."""
     lk = case["lookup"]
@@ -430,6 +499,7 @@ def generate(rng, tier):
         as_kw = k % 2 == 1
         cases.append(dict(alias="bulk", cap=None, static=True, args=[] if as_kw else [pv.i(k), big],
                           kwargs=[["doc", big]] if as_kw else [], variants=[], via_decorator=True))
+    cases += deep_probe() + after_save_probe()
     # probe stream for the known finding F06: set arguments (hash-seed dependent iteration order)
     for _ in range(12 if tier == "quick" else 100):
         elems = rng.sample(["x", "y", "zz", "abc", "q", "w", "long-string"], rng.randrange(2, 5))
@@ -613,6 +683,12 @@ def direct(case, obs):
             fails.append(("hash-seed-dependent", "decorator key differs under PYTHONHASHSEED=%s: %r vs %r" %
                           (ALT_ENVS[k]["PYTHONHASHSEED"], obs.get("dec_key"), a.get("dec_key"))))
             break
+    # (i'') ... and does not depend on what this process did before: the same call after a cassette save
+    for kind, k2 in (obs.get("key_after_save") or []):
+        if k2 != key:
+            fails.append(("key-depends-on-process-history", "the key of the same call built after this process recorded and saved "
+                          "an operation on the %s cassette differs: before %r, after %r" % (kind, key, k2)))
+            break
     # (ii) structurally equal calls / changed excluded arguments give the same key
     for vk in obs.get("variants", []):
         if vk != key:
@@ -637,6 +713,10 @@ def features(case):
          "static" if case["static"] else "instance", "kwargs=%d" % len(case["kwargs"])}
     if case.get("probe"):
         f.add("probe:" + case["probe"])
+    if case.get("depth"):
+        f.add("nesting-depth:%d" % case["depth"])
+    for kind in case.get("after_save") or []:
+        f.add("key-again-after-save-on:" + kind)
     if case.get("lookup"):
         lk = case["lookup"]
         f.add("alias:" + ("resolver-formatted" if lk["resolver"] is not None else "plain"))
